@@ -27,10 +27,14 @@ def system_level(ctx, binary, projects, limit):
                 r2 = programs.run_bin(binary, ["execute", sp(how_x, d2, stem + ".mmm")], d2)
                 if how_x != how and r2[0] != 124 and (programs.exit_class(r2[0]) != programs.exit_class(r1[0]) or not programs.same_output(r1[1], r2[1], proj)):
                     same_spelling = programs.run_bin(binary, ["execute", sp(how, d2, stem + ".mmm")], d2)
-        if r2 is not None and not programs.same_output(r1[1], r2[1], proj):
+        # a printed function value shows the path of its file as compiled: the two scratch copies of the project differ
+        # in nothing but their own location
+        unloc = lambda r, dd: r if r is None else (r[0], r[1].replace(dd + os.sep, ""), r[2].replace(dd + os.sep, ""))
+        if r2 is not None and not programs.same_output(unloc(r1, d)[1], unloc(r2, d2)[1], proj):
             again = programs.run_bin(binary, ["run", e, "-q"], d)
             if not programs.same_output(r1[1], again[1], None):
-                r2 = (r2[0], r1[1], r2[2])
+                r2 = (r2[0], r1[1].replace(d + os.sep, d2 + os.sep), r2[2])
+        r1, r2, same_spelling = unloc(r1, d), unloc(r2, d2), unloc(same_spelling, d2)
         shutil.rmtree(d, ignore_errors=True)
         shutil.rmtree(d2, ignore_errors=True)
         return proj, r1, c, t, r2, same_spelling
